@@ -360,10 +360,16 @@ Section Sem.
     - unfold tail_part, ctail. destruct (is_empty (tail_text tl td)); reflexivity. Qed.
 
   (* ---------------------------------------------------------------- strip of the `$$` suffix *)
+  Lemma hsd_cons a b c t : has_suffix_dd (a :: b :: c :: t) = has_suffix_dd (b :: c :: t).
+  Proof. reflexivity. Qed.
+  (* has_suffix_dd only looks at the last two bytes *)
+  Lemma hsd_app : forall s a b, has_suffix_dd (s ++ [a; b]) = N.eqb a dollar && N.eqb b dollar.
+  Proof. induction s as [|x s IH]; intros a b; [reflexivity|].
+    destruct s as [|y s]; [reflexivity|]. cbn [app] in *. destruct (s ++ [a; b]) as [|z u] eqn:E; [destruct s; discriminate|].
+    rewrite hsd_cons. rewrite <- E. apply (IH a b). Qed.
+
   Lemma has_suffix_dd_app s : has_suffix_dd (s ++ [dollar; dollar]) = true.
-  Proof. induction s as [|a [|b [|c t]]]; try reflexivity.
-    - cbn [app has_suffix_dd] in *. exact IHs.
-    - cbn [app has_suffix_dd] in *. exact IHs. Qed.
+  Proof. apply hsd_app. Qed.
 
   Lemma removelast_app2 (s : str) a b : removelast (s ++ [a; b]) = s ++ [a].
   Proof. replace (s ++ [a; b]) with ((s ++ [a]) ++ [b]) by (rewrite <- app_assoc; reflexivity). apply removelast_last. Qed.
@@ -371,23 +377,18 @@ Section Sem.
   Lemma strip_dd_app s : strip_dd (s ++ [dollar; dollar]) = s ++ [dollar].
   Proof. unfold strip_dd. rewrite has_suffix_dd_app. apply removelast_app2. Qed.
 
-  Lemma has_suffix_dd_last_nodollar : forall s a, a <> dollar -> has_suffix_dd (s ++ [a]) = false.
-  Proof. induction s as [|x [|y t] IH]; intros a Ha.
-    - reflexivity.
-    - cbn [app has_suffix_dd]. apply N.eqb_neq in Ha. rewrite Ha. apply andb_false_r.
-    - specialize (IH a Ha). cbn [app has_suffix_dd] in *. destruct (t ++ [a]) eqn:E; [destruct t; discriminate|]. exact IH. Qed.
+  (* a piece whose last byte is not '$', or whose last-but-one byte is not '$', is left alone *)
+  Lemma strip_dd_nodollar s : no_byte dollar s -> strip_dd s = s.
+  Proof. intros H. unfold strip_dd. destruct s as [|x t] using rev_ind; [reflexivity|]. clear IHt.
+    apply Forall_app in H as [Ht Hx]. inversion Hx as [|? ? Hx' _]; subst. apply N.eqb_neq in Hx'.
+    destruct t as [|y u] using rev_ind.
+    - cbn. reflexivity.
+    - rewrite <- app_assoc. cbn [app]. rewrite hsd_app. rewrite Hx'. now rewrite andb_false_r. Qed.
 
-  Lemma has_suffix_dd_nodollar s : no_byte dollar s -> has_suffix_dd s = false.
-  Proof. intros H. destruct s as [|x t] using rev_ind; [reflexivity|].
-    apply has_suffix_dd_last_nodollar. apply Forall_app in H as [_ H]. now inversion H. Qed.
-
-  Lemma has_suffix_dd_tail s : no_byte dollar s -> has_suffix_dd (s ++ [dollar]) = false.
-  Proof. intros H. destruct s as [|x t] using rev_ind; [reflexivity|].
-    apply Forall_app in H as [_ H]. inversion H as [|? ? Hx _]; subst.
-    rewrite <- app_assoc. cbn [app]. clear -Hx. induction t as [|a [|b u] IH].
-    - cbn. apply N.eqb_neq in Hx. now rewrite Hx.
-    - cbn [app has_suffix_dd]. exact IH.
-    - cbn [app has_suffix_dd] in *. exact IH. Qed.
+  Lemma strip_dd_tail s : no_byte dollar s -> strip_dd (s ++ [dollar]) = s ++ [dollar].
+  Proof. intros H. unfold strip_dd. destruct s as [|x t] using rev_ind; [reflexivity|]. clear IHt.
+    apply Forall_app in H as [_ Hx]. inversion Hx as [|? ? Hx' _]; subst. apply N.eqb_neq in Hx'.
+    rewrite <- app_assoc. cbn [app]. rewrite hsd_app. now rewrite Hx'. Qed.
 
   (* ---------------------------------------------------------------- semantics *)
   Definition to_str (t : ty) (v : val) : option str :=
@@ -446,4 +447,97 @@ Section Sem.
     destruct es as [|E [|E2 t]]; eauto.
     inversion HF as [|? sv te ? svs' tes' H1 H2]; subst. inversion H2; subst.
     exists E. split; [reflexivity|]. cbn [concat]. rewrite !app_nil_r. exact H1. Qed.
+
+  Lemma lower_parts_app a b : lower_parts lit_val (a ++ b) =
+    match lower_parts lit_val a, lower_parts lit_val b with Some x, Some y => Some (x ++ y) | _, _ => None end.
+  Proof. induction a as [|p t IH]; cbn [app lower_parts].
+    - destruct (lower_parts lit_val b); reflexivity.
+    - rewrite IH. destruct (lower_part lit_val p); [|reflexivity].
+      destruct (lower_parts lit_val t); [|reflexivity]. destruct (lower_parts lit_val b); reflexivity. Qed.
+
+  Lemma Forall3_app {A B C} (R : A -> B -> C -> Prop) a1 b1 c1 a2 b2 c2 :
+    Forall3 R a1 b1 c1 -> Forall3 R a2 b2 c2 -> Forall3 R (a1 ++ a2) (b1 ++ b2) (c1 ++ c2).
+  Proof. induction 1; intros; cbn [app]; auto. constructor; auto. Qed.
+
+  Lemma pev_const en x : pev en (EConst (VStr x)) x [].
+  Proof. intros tr. rewrite ev_EConst. now rewrite app_nil_r. Qed.
+
+  Lemma lit_val_snoc_dollar a : lit_val (a ++ [dollar]) = lit_val a ++ [dollar].
+  Proof. rewrite lit_val_dollar. now rewrite lit_val_nil. Qed.
+
+  Lemma citems_sem en l v te : Forall wf_item l -> items_sem en l v te ->
+    exists es svs tes, lower_parts lit_val (citems l) = Some es /\ Forall3 (pev en) es svs tes /\
+                       concat svs = v /\ concat tes = te.
+  Proof.
+    intros W H. induction H as [|s t v te H IH|s e t ty x sv te1 v te Hp Hop H IH].
+    - exists [], [], []. repeat split; constructor.
+    - inversion W as [|? ? [Hs _] W']; subst. destruct (IH W') as (es & svs & tes & HL & HF & Hv & Ht).
+      exists (EConst (VStr (lit_val s ++ [dollar])) :: es), ((lit_val s ++ [dollar]) :: svs), ([] :: tes).
+      cbn [citems lower_parts lower_part]. rewrite HL, strip_dd_app, lit_val_snoc_dollar. repeat split.
+      + constructor; auto. apply pev_const.
+      + cbn [concat]. rewrite Hv, <- app_assoc. reflexivity.
+      + cbn [concat]. exact Ht.
+    - inversion W as [|? ? [Hs _] W']; subst. cbn [fst] in Hs. destruct (IH W') as (es & svs & tes & HL & HF & Hv & Ht).
+      destruct (lower_operand en ty x sv te1 Hop) as (E & HE & HEv).
+      cbn [citems]. rewrite Hp. destruct (is_empty s) eqn:Es.
+      + apply is_empty_spec in Es. subst s. rewrite lit_val_nil.
+        exists (E :: es), (sv :: svs), (te1 :: tes). cbn [app lower_parts]. rewrite HE, HL. repeat split.
+        * constructor; auto.
+        * cbn [concat app]. now rewrite Hv.
+        * cbn [concat]. now rewrite Ht.
+      + exists (EConst (VStr (lit_val s)) :: E :: es), (lit_val s :: sv :: svs), ([] :: te1 :: tes).
+        cbn [app lower_parts]. rewrite HE, HL. cbn [lower_part]. rewrite strip_dd_nodollar by auto. repeat split.
+        * constructor; [apply pev_const|]. constructor; auto.
+        * cbn [concat]. now rewrite Hv.
+        * cbn [concat app]. now rewrite Ht.
+  Qed.
+
+  Lemma ctail_sem en tl td : no_byte dollar tl ->
+    exists es svs tes, lower_parts lit_val (ctail tl td) = Some es /\ Forall3 (pev en) es svs tes /\
+                       concat svs = tail_val tl td /\ concat tes = [].
+  Proof. intros H. unfold ctail, tail_val. destruct (is_empty (tail_text tl td)) eqn:E.
+    - apply is_empty_spec in E. unfold tail_text in E. apply app_eq_nil in E as [-> E2]. destruct td; [discriminate|].
+      exists [], [], []. rewrite lit_val_nil. repeat split; constructor.
+    - unfold tail_text in *. destruct td.
+      + exists [EConst (VStr (lit_val tl ++ [dollar]))], [lit_val tl ++ [dollar]], [[]].
+        cbn [lower_parts lower_part]. rewrite strip_dd_tail by auto. rewrite lit_val_snoc_dollar.
+        split; [reflexivity|]. split; [constructor; [apply pev_const|constructor]|]. cbn [concat]. rewrite !app_nil_r. auto.
+      + rewrite app_nil_r in *. exists [EConst (VStr (lit_val tl))], [lit_val tl], [[]].
+        cbn [lower_parts lower_part]. rewrite strip_dd_nodollar by auto.
+        split; [reflexivity|]. split; [constructor; [apply pev_const|constructor]|]. cbn [concat]. rewrite !app_nil_r. auto. Qed.
+
+  (* end to end: split by the parser model, lower by the compiler model, evaluate *)
+  Lemma interp_correct en l tl td v te : wf l tl -> l <> [] -> items_sem en l v te ->
+    exists ps E, split_lit (render l tl td) = Ok (Some ps, None) /\
+                 lower_interp lit_val (map (cpart_of (render l tl td)) ps) = Some E /\
+                 forall tr, ev E en tr = (RVal [VStr (v ++ tail_val tl td)], en, tr ++ te).
+  Proof.
+    intros W Hne HS. exists (parts_items 0 l ++ tail_part tl td). rewrite (split_render l tl td W Hne).
+    rewrite cparts_render. destruct W as [Wl Wt].
+    destruct (citems_sem en l v te Wl HS) as (es1 & sv1 & te1 & L1 & F1 & V1 & T1).
+    destruct (ctail_sem en tl td Wt) as (es2 & sv2 & te2 & L2 & F2 & V2 & T2).
+    assert (HL : lower_parts lit_val (citems l ++ ctail tl td) = Some (es1 ++ es2)) by (rewrite lower_parts_app, L1, L2; reflexivity).
+    assert (Hne' : citems l ++ ctail tl td <> []).
+    { destruct l as [|[s f] t]; [congruence|]. destruct f; cbn [citems]; [discriminate|].
+      destruct (is_empty s); destruct (parse e); discriminate. }
+    destruct (lower_interp_pev en _ _ _ _ HL (Forall3_app _ _ _ _ _ _ _ F1 F2) Hne') as (E & HE & HP).
+    exists E. split; [reflexivity|]. split; [exact HE|]. intros tr. rewrite (HP tr).
+    rewrite !concat_app, V1, V2, T1, T2, app_nil_r. reflexivity.
+  Qed.
+
+  (* the compiler has no `.string` for bool: the documented meaning exists, the lowering does not *)
+  Lemma interp_bool_rejected x : lower_interp lit_val [CExpr TBool x] = None.
+  Proof. reflexivity. Qed.
 End Sem.
+
+Lemma interp_value :
+  forall (err_text : err -> str) (self : stmt -> env -> trace -> sres) (lit_val : str -> str),
+  (forall a b, lit_val (a ++ dollar :: b) = lit_val a ++ dollar :: lit_val b) -> lit_val [] = [] ->
+  forall (parse : str -> ty * expr) en l tl td v te,
+  wf l tl -> l <> [] -> items_sem err_text self lit_val parse en l v te ->
+  exists ps E, split_lit (render l tl td) = Ok (Some ps, None) /\
+               lower_interp lit_val (map (cpart_of parse (render l tl td)) ps) = Some E /\
+               forall tr, fst (fst (ev err_text self E en tr)) = RVal [VStr (v ++ tail_val lit_val tl td)].
+Proof. intros et self lv H1 H2 parse en l tl td v te W Hne HS.
+  destruct (interp_correct et self lv H1 H2 parse en l tl td v te W Hne HS) as (ps & E & A & B & C).
+  exists ps, E. repeat split; auto. intros tr. now rewrite C. Qed.
